@@ -799,7 +799,10 @@ def reshape(t, target):
 
     def unlin(m, dims):
         out = []
-        for d in reversed(dims[1:]):
+        for k in range(len(dims) - 1, 0, -1):
+            d = dims[k]
+            if not (isinstance(m, int) and isinstance(d, int)):
+                divmod_facts(m, d, prod(dims[:k]))
             out.append(i_mod(m, d))
             m = i_floordiv(m, d)
         out.append(m)
@@ -832,7 +835,27 @@ def reshape(t, target):
     def inv(bidx):
         return True, conv(bidx, 0, 1, src, target, nt)
 
-    return _view(t, list(target), fwd, inv, contiguous=t.contiguous)
+    v = _view(t, list(target), fwd, inv, contiguous=t.contiguous)
+    v.merge_groups = {gt[0]: list(gs) for (gs, gt) in groups if len(gs) >= 2 and len(gt) == 1}
+    v.dim_map = {gt[0]: gs[0] for (gs, gt) in groups if len(gs) == 1 and len(gt) == 1}
+    return v
+
+
+def _linidx_body(a, b, w):
+    m = zint(a) * zint(w) + zint(b)
+    return z3.Implies(z3.And(zint(w) > 0, zint(b) >= 0, zint(b) < zint(w)), z3.And(i_floordiv(m, w) == zint(a), i_mod(m, w) == zint(b)))
+
+
+def _divmod_body(m, d, D):
+    q, r = i_floordiv(m, d), i_mod(m, d)
+    return z3.Implies(z3.And(zint(d) > 0, zint(m) >= 0, zint(m) < zint(D) * zint(d)),
+                      z3.And(zint(q) >= 0, zint(q) < zint(D), zint(r) >= 0, zint(r) < zint(d), zint(m) == zint(d) * zint(q) + zint(r)))
+
+
+def divmod_facts(m, d, D):
+    """Range facts of a row-major index split (m -> (m div d, m mod d), m < D*d): the solver
+    does not derive them for a symbolic divisor unprompted."""
+    ctx.cur().lemma_instance("index-split-div-mod", ["int", "int", "int"], _divmod_body, (zint(m), zint(d), zint(D)))
 
 
 def transpose(t, d0, d1):
@@ -1008,6 +1031,16 @@ class Selection:
             t.selinfo = (self, k)
             out.append(t)
         return out
+
+
+def _pick_scalar(lst, j):
+    """lst[j] for a possibly symbolic index j."""
+    if isinstance(j, int):
+        return lst[j]
+    r = lst[-1]
+    for k in range(len(lst) - 2, -1, -1):
+        r = ite(i_eq(j, k), lst[k], r)
+    return r
 
 
 def lex_lt(a, b):
@@ -1678,10 +1711,31 @@ def targreduce(t, dim, keepdim, which):
     nk = len(keep)
     if not isf:
         raise Unsupported("integer max over a symbolic axis")
+    mg = getattr(t, "merge_groups", None)
+    if mg and dim in mg and t.base is not None and all(k in getattr(t, "dim_map", {}) for k in keep):
+        return _targreduce_merged(t, dim, keepdim, which, keep, out_shape, first_index)
     Vv = z3.Function(nm + "_v", *([z3.IntSort()] * nk + [z3.RealSort()])) if nk else z3.Real(nm + "_v")
     Vn = z3.Function(nm + "_n", *([z3.IntSort()] * nk + [z3.BoolSort()])) if nk else z3.Bool(nm + "_n")
     A = z3.Function(nm + "_a", *([z3.IntSort()] * nk + [z3.IntSort()])) if nk else z3.Int(nm + "_a")
     inst = {}
+    # general (quantified) form of the contract, so that nested reductions and facts arising
+    # from other quantifier instantiations are covered; ground uses get explicit instances
+    if nk:
+        qk = [z3.Int(fresh_name("rk")) for _ in range(nk)]
+        qj = z3.Int(fresh_name("rj"))
+        krange = b_and(*[b_and(q >= 0, i_lt(q, t.shape[k])) for q, k in zip(qk, keep)])
+        gv = SFloat(Vn(*qk), False, Vv(*qk))
+        ga = A(*qk)
+        gx = sfloat(src(full_of(qk, qj)))
+        gxa = src(full_of(qk, ga))
+        s0 = sink()
+        if gx.inf is False:
+            s0.add(z3.ForAll(qk + [qj], zbool(b_implies(b_and(krange, qj >= 0, i_lt(qj, n)),
+                                                       b_and(b_implies(gx.nan, gv.nan),
+                                                             b_implies(b_not(gv.nan), (gv.val >= gx.val) if which == "max" else (gv.val <= gx.val))))),
+                             ))
+            s0.add(z3.ForAll(qk, zbool(b_implies(b_and(krange, i_lt(0, n)), b_and(ga >= 0, i_lt(ga, n), same(gxa, gv)))),
+                             patterns=[Vv(*qk)]))
 
     def get(idx):
         kidx = kidx_of(idx)
@@ -1712,6 +1766,85 @@ def targreduce(t, dim, keepdim, which):
             s.add(z3.ForAll([j2], zbool(b_implies(b_and(j2 >= 0, j2 < a), b_not(same(xj2, v))))))
         inst[key] = (v, a)
         return v, a
+
+    vals = STensor(out_shape, FLOAT, fn=lambda idx: get(idx)[0], kind=t.kind)
+    inds = STensor(out_shape, INT, fn=lambda idx: get(idx)[1], kind=t.kind)
+    return vals, inds
+
+
+def _targreduce_merged(t, dim, keepdim, which, keep, out_shape, first_index):
+    """max/min over an axis that is a row-major merge of several axes of the underlying tensor
+    (x.reshape(S, C, -1).max(dim=2)): the contract is stated over the original axes -- the
+    value bounds every cell, is attained at (A_0, .., A_k), and the returned flat index is
+    their row-major linearisation (with the div/mod facts that recover them)."""
+    base = t.base
+    src = base.reader()
+    gdims = t.merge_groups[dim]
+    sizes = [base.shape[d] for d in gdims]
+    nk = len(keep)
+    nm = fresh_name(which + "m")
+    Vv = z3.Function(nm + "_v", *([z3.IntSort()] * nk + [z3.RealSort()])) if nk else z3.Real(nm + "_v")
+    Vn = z3.Function(nm + "_n", *([z3.IntSort()] * nk + [z3.BoolSort()])) if nk else z3.Bool(nm + "_n")
+    As = [(z3.Function("%s_a%d" % (nm, g), *([z3.IntSort()] * nk + [z3.IntSort()])) if nk else z3.Int("%s_a%d" % (nm, g))) for g in range(len(gdims))]
+
+    def base_idx(kidx, gidx):
+        f = [None] * base.rank
+        for a_, k in enumerate(keep):
+            f[t.dim_map[k]] = kidx[a_]
+        for d, g in zip(gdims, gidx):
+            f[d] = g
+        if any(x is None for x in f):
+            raise Unsupported("reduction over a merged axis: unmapped base dimension")
+        return f
+
+    def val(kk):
+        return SFloat(Vn(*kk) if nk else Vn, False, Vv(*kk) if nk else Vv)
+
+    def args(kk):
+        return [(A(*kk) if nk else A) for A in As]
+
+    def facts(kk, guard):
+        v = val(kk)
+        a = args(kk)
+        inr = b_and(*[b_and(x >= 0, i_lt(x, sz)) for x, sz in zip(a, sizes)])
+        return b_implies(guard, b_and(inr, same(src(base_idx(kk, a)), v)))
+
+    s0 = sink()
+    qk = [z3.Int(fresh_name("rk")) for _ in range(nk)]
+    qg = [z3.Int(fresh_name("rg")) for _ in gdims]
+    krange = b_and(*[b_and(q >= 0, i_lt(q, t.shape[k])) for q, k in zip(qk, keep)])
+    grange = b_and(*[b_and(q >= 0, i_lt(q, sz)) for q, sz in zip(qg, sizes)])
+    nonempty = b_and(*[i_lt(0, sz) for sz in sizes])
+    gv = val(qk)
+    gx = sfloat(src(base_idx(qk, qg)))
+    if gx.inf is not False:
+        raise Unsupported("max over symbolic axes with infinities")
+    bound = b_and(b_implies(gx.nan, gv.nan), b_implies(b_not(gv.nan), (gv.val >= gx.val) if which == "max" else (gv.val <= gx.val)))
+    s0.add(z3.ForAll(qk + qg, zbool(b_implies(b_and(krange, grange), bound))))
+    if nk:
+        s0.add(z3.ForAll(qk, zbool(facts(qk, b_and(krange, nonempty))), patterns=[Vv(*qk)]))
+    inst = {}
+
+    def get(idx):
+        kidx = [idx[k] for k in keep] if keepdim else list(idx)
+        zk = [zint(i) for i in kidx]
+        key = tuple(i.get_id() for i in zk)
+        if key in inst:
+            return inst[key][1:]
+        ctx.cur().require(nonempty, "IndexError", "max over an empty axis")
+        s0.add(zbool(facts(zk, True)))
+        a = args(zk)
+        # row-major flat index and the facts recovering its components
+        flat = a[0]
+        for g in range(1, len(a)):
+            ctx.cur().lemma_instance("linear-index-div-mod", ["int", "int", "int"], _linidx_body, (flat, a[g], zint(sizes[g])))
+            flat = flat * zint(sizes[g]) + a[g]
+        if first_index:
+            qg2 = [z3.Int(fresh_name("rf")) for _ in gdims]
+            gr2 = b_and(*[b_and(q >= 0, i_lt(q, sz)) for q, sz in zip(qg2, sizes)])
+            s0.add(z3.ForAll(qg2, zbool(b_implies(b_and(gr2, lex_lt(qg2, a)), b_not(same(src(base_idx(zk, qg2)), val(zk)))))))
+        inst[key] = (zk, val(zk), flat)
+        return val(zk), flat
 
     vals = STensor(out_shape, FLOAT, fn=lambda idx: get(idx)[0], kind=t.kind)
     inds = STensor(out_shape, INT, fn=lambda idx: get(idx)[1], kind=t.kind)
